@@ -339,6 +339,38 @@ def run(ctx, out):
     run_unreachable_and_vanishing(ctx, out)
     run_dotdot_operands(ctx, out)
     run_backup_bystanders(ctx, out)
+    run_odd_named_directories(ctx, out)
+
+
+def run_odd_named_directories(ctx, out):
+    """Directories whose names are not UTF-8, with nothing but directories below them (empty ones included): entries like any
+    other — each exists at the destination as a directory."""
+    rng = ctx.rng
+    d0 = ctx.work.fresh("c02odd")
+    k = 0
+    for driver in ("parfile", "parblock"):
+        for dest_state in ("absent", "dir", "dir-T"):
+            k += 1
+            d = os.path.join(os.fsencode(d0), b"o%d" % k)
+            rels = [b"empty\xff\xfe", b"caf\xe9/inner\xc0/leaf", b"caf\xc3\xa9-utf8/leaf", b"plain/e"]
+            for rel in rels:
+                os.makedirs(os.path.join(d, b"src", rel))
+            open(os.path.join(d, b"src", b"plain", b"f"), "wb").write(b"f")
+            if dest_state != "absent":
+                os.makedirs(os.path.join(d, b"dst"))
+            argv = [ctx.bins["xcp"], "-r", "--driver", driver, "-w", str(rng.choice([1, 2, 4]))] + (["-T"] if dest_state == "dir-T" else []) + ["src", "dst"]
+            r = xcp.run_plain(argv, os.fsdecode(d))
+            base = os.path.join(d, b"dst", b"src") if dest_state == "dir" else os.path.join(d, b"dst")
+            out.case(("odd-named-directories", driver, dest_state), True)
+            out.count("odd_named_directories")
+            if r.exit == 0:
+                missing = [rel for rel in rels if not os.path.isdir(os.path.join(base, rel))]
+                if missing:
+                    out.violation("exit 0 but the directory %r (a name that is not UTF-8, only directories below it) is not at the destination" % missing[0],
+                                  dict(argv=argv[1:], exit=r.exit, stderr=r.stderr[-200:]))
+            else:
+                out.corr("R1-valid-invocation-failed: the model/mapping rule expects success", dict(argv=argv[1:], stderr=r.stderr[-200:]), "exit 0", r.exit)
+            shutil.rmtree(d, ignore_errors=True)
 
 
 def run_backup_bystanders(ctx, out):
